@@ -111,6 +111,9 @@ def _supported(algo, spec, n_metrics, counts):
   if oi.is_conditional(spec):
     return False, 'conditional'
   kinds = {p['kind'] for p in spec['params']}
+  if any(p['kind'] == 'DOUBLE' and p.get('scale') in ('LOG', 'REVERSE_LOG')
+         and p['lo'] <= 0 for p in spec['params']):
+    return False, 'log_scale_nonpositive'
   if algo == 'cmaes':
     if kinds != {'DOUBLE'}:
       return False, 'cmaes_non_double'
@@ -137,9 +140,27 @@ def _metric_value():
                        lambda v: round(v, 3)))
 
 
+@st.composite
+def _nonpositive_log_space(draw):
+  """A flat space one of whose DOUBLE parameters asks for LOG / REVERSE_LOG
+  scaling on a range that is not strictly positive: nothing can scale it; the
+  documented outcome is a refusal, an answer must at least be complete and
+  in-domain."""
+  spec = draw(spaces.flat_space(1, 3))
+  lo, hi = draw(st.sampled_from([(-3.0, -1.0), (-1.0, 1.0), (-0.5, 8.0),
+                                 (0.0, 1.0), (-1e-9, 1e-3)]))
+  k = draw(st.integers(0, len(spec['params']) - 1))
+  spec['params'][k] = {'name': spec['params'][k]['name'], 'kind': 'DOUBLE',
+                       'lo': lo, 'hi': hi,
+                       'scale': draw(st.sampled_from(['LOG', 'LOG',
+                                                      'REVERSE_LOG']))}
+  return spec
+
+
 def _generic_space():
   return st.one_of(
-      spaces.flat_space(1, 5),
+      spaces.flat_space(1, 5), spaces.flat_space(1, 5),
+      _nonpositive_log_space(),
       spaces.flat_space(1, 4, hostile_names=True),
       spaces.flat_space(1, 3, scales=('LOG', 'REVERSE_LOG')),
       spaces.flat_space(1, 3, kinds=('INTEGER', 'DISCRETE')),
